@@ -279,6 +279,32 @@ func runIdentCase(c *Ctx) {
 			var x, y ssa.Value
 			how := ""
 			switch z := in.(type) {
+			case *ssa.MapUpdate, *ssa.Lookup:
+				// a map keyed by a name: the key has to be the name in one spelling (`Name` and `name` are one column)
+				var k ssa.Value
+				if mu, ok := z.(*ssa.MapUpdate); ok {
+					k = mu.Key
+				} else if lk := z.(*ssa.Lookup); !lk.CommaOk || true {
+					if _, isMap := lk.X.Type().Underlying().(*types.Map); !isMap {
+						continue
+					}
+					k = lk.Index
+				}
+				if k == nil || !isStringType(k.Type()) {
+					continue
+				}
+				nk := a.norm(k, 0)
+				if !nk.ident || nk.kind == "const" {
+					continue
+				}
+				n++
+				key := fmt.Sprintf("%s name as map key#%d", p.FnKey(fn), n)
+				if nk.kind == "lower" || nk.kind == "upper" {
+					c.Pass(key, in.Pos(), "the key is the %s-cased name", nk.kind)
+				} else {
+					c.Fail(key, in.Pos(), "a map is keyed by an identifier as it happens to be spelled (%s): `Name` and `name` denote the same column/table/index in SQLite and would be two keys", nk.kind)
+				}
+				continue
 			case *ssa.BinOp:
 				if (z.Op != token.EQL && z.Op != token.NEQ) || !isStringType(z.X.Type()) {
 					continue
